@@ -30,9 +30,9 @@ Qed.
 
 Definition model_case (c : case) : case :=
   match model_exit c with
-  | ExitOk r => {| c_cmd := c_cmd c; c_outcomes := c_outcomes c; i_ended := true; i_runs := N.of_nat r; i_exit_ok := true |}
-  | ExitErr r => {| c_cmd := c_cmd c; c_outcomes := c_outcomes c; i_ended := true; i_runs := N.of_nat r; i_exit_ok := false |}
-  | OutOfFuel => {| c_cmd := c_cmd c; c_outcomes := c_outcomes c; i_ended := false; i_runs := 0%N; i_exit_ok := false |}
+  | ExitOk r => {| c_cmd := c_cmd c; c_outcomes := c_outcomes c; c_sanitize_ok := c_sanitize_ok c; i_ended := true; i_runs := N.of_nat r; i_exit_ok := true |}
+  | ExitErr r => {| c_cmd := c_cmd c; c_outcomes := c_outcomes c; c_sanitize_ok := c_sanitize_ok c; i_ended := true; i_runs := N.of_nat r; i_exit_ok := false |}
+  | OutOfFuel => {| c_cmd := c_cmd c; c_outcomes := c_outcomes c; c_sanitize_ok := c_sanitize_ok c; i_ended := false; i_runs := 0%N; i_exit_ok := false |}
   end.
 
 Lemma no_ok_in_runs st r : (forall i, 0 <= i < r -> st i <> Ok) -> existsb is_ok (map st (seq 0 r)) = false.
@@ -50,7 +50,7 @@ Theorem model_satisfies_spec c : model_exit c <> OutOfFuel ->
 Proof.
   intros NF.
   assert (model_exit (model_case c) = model_exit c) as ME.
-  { unfold model_case. destruct (model_exit c) eqn:E; unfold model_exit in *; cbn [c_cmd c_outcomes]; exact E. }
+  { unfold model_case. destruct (model_exit c) eqn:E; unfold model_exit in *; cbn [c_cmd c_outcomes c_sanitize_ok]; exact E. }
   assert (spec_okb (model_case c) = true) as S.
   { unfold spec_okb. set (st := stream_of (c_outcomes (model_case c))).
     assert (st = stream_of (c_outcomes c)) as Est by (unfold st, model_case; destruct (model_exit c); reflexivity).
@@ -59,7 +59,7 @@ Proof.
     destruct (c_cmd c =? 0)%N eqn:C0.
     - (* vrps *)
       assert ((c_cmd c <? 3)%N = true) as -> by (apply N.eqb_eq in C0; apply N.ltb_lt; lia).
-      destruct (vrps true (fun _ => true) st 50 0 false) as [r|r|] eqn:V; [| |congruence];
+      destruct (vrps true (fun _ => c_sanitize_ok c) st 50 0 false) as [r|r|] eqn:V; [| |congruence];
         cbn [i_ended i_runs i_exit_ok]; rewrite Nat2N.id.
       + destruct (proj1 (vrps_runs _ _ _ _ _ r) V) as (L1 & L2 & L3). rewrite L3. cbn [is_ok Bool.eqb andb].
         rewrite !andb_true_r. apply andb_true_iff; split; apply Nat.leb_le; lia.
@@ -69,7 +69,7 @@ Proof.
     - destruct (c_cmd c <? 3)%N eqn:C3.
       + unfold one_shot in *. destruct (st 0) eqn:E0; cbn [i_ended i_runs i_exit_ok]; rewrite Nat2N.id;
           cbn [pred Nat.leb andb seq map existsb]; rewrite ?E0; reflexivity.
-      + destruct (server (fun _ => true) st 50 0 true true) as [r|r|] eqn:V; [exfalso; apply (server_never_exits_ok _ _ _ _ _ _ _ V)| |congruence].
+      + destruct (server (fun _ => c_sanitize_ok c) st 50 0 true true) as [r|r|] eqn:V; [exfalso; apply (server_never_exits_ok _ _ _ _ _ _ _ V)| |congruence].
         cbn [i_ended i_runs i_exit_ok]. rewrite Nat2N.id.
         destruct (server_failures _ _ _ _ _ _ _ V) as (L1 & L2 & L3). cbn [failures] in L3.
         rewrite (is_ok_false _ L2). cbn [negb andb]. rewrite andb_true_r.
